@@ -7,7 +7,7 @@ macro_rules! proof {
         #[kani::proof]
         #[kani::unwind($unwind)]
         fn $name() {
-            let raw: [u8; $len] = kani::any();
+            let raw: [u64; $len] = kani::any();
             let mut i = Inp::new(&raw);
             let out = $f(&mut i);
             kani::cover!(out.witness, "witness");
@@ -19,3 +19,11 @@ macro_rules! proof {
 proof!(c09_pow_iff, scen::c09::IFF_LEN, scen::c09::pow_iff, 70);
 proof!(c09_pow_config, scen::c09::CFG_LEN, scen::c09::pow_config, 4);
 proof!(c09_pow_commit, scen::c09::COMMIT_LEN, scen::c09::pow_commit, 70);
+
+proof!(c11_exact_3_2, scen::c11::len(3, 2), scen::c11::exact::<3, 2>, 17);
+proof!(c11_exact_2_1, scen::c11::len(2, 1), scen::c11::exact::<2, 1>, 17);
+proof!(c11_exact_4_3, scen::c11::len(4, 3), scen::c11::exact::<4, 3>, 17);
+proof!(c11_exact_5_4, scen::c11::len(5, 4), scen::c11::exact::<5, 4>, 17);
+proof!(c11_exact_0_0, scen::c11::len(0, 0), scen::c11::exact::<0, 0>, 17);
+proof!(c11_exact_3_1, scen::c11::len(3, 1), scen::c11::exact::<3, 1>, 17);
+proof!(c11_exact_2_2, scen::c11::len(2, 2), scen::c11::exact::<2, 2>, 17);
